@@ -581,6 +581,123 @@ def _arm_values(b, op, arm_start, other_start, header, use_bb):
     return [_def_expr(b, k, bi, d) for k, bi, d in da]
 
 
+# ---- what a constructor call builds, read from the constructor's body (not from its name)
+def _callee(F, c):
+    """body of the crate function a call resolves to; `x.into()` resolves to the crate's `From<X> for T`"""
+    cb = F.bodies.get(c.path) or F.bodies.get(c.name)
+    if cb is None and c.item == 'into' and (c.trait or '').endswith('Into') and len(c.gargs) >= 2:
+        r = F.method(c.gargs[1], 'from', trait='From', targs=[c.gargs[0]])
+        cb = r[0] if len(r) == 1 else None
+    return cb if cb is not None and cb.kind == 'fn' else None
+
+
+def _straight_line(cb):
+    return not any(cb.blocks[bi]['term']['k'] == 'switch' for bi in cb.live) and not cb.loops()
+
+
+def _src(cb, op):
+    """('param', i) | ('const', text) | None for an operand of a straight-line constructor body"""
+    e = T.expr(cb, op)
+    if e[0] == 'const': return ('const', e[1])
+    if e[0] == 'place' and not e[2] and 1 <= e[1] <= cb.argc: return ('param', e[1])
+    return None
+
+
+def _is_embedding(cb):
+    """the function only wraps its single argument (`From<Linear> for Function` = Function { function: Some(Linear(l)) }):
+    straight-line, and _0 is reached from parameter 1 through moves and one-operand aggregates only"""
+    if cb.argc != 1 or not _straight_line(cb) or cb.calls: return False
+    e = T.expr(cb, {'k': 'copy', 'pl': {'l': 0, 'p': []}})
+    for _ in range(8):
+        if e[0] == 'agg' and len(e[2]) == 1: e = e[2][0]; continue
+        break
+    return e == ('place', 1, [])
+
+
+def _constant_source(F, S, cb, depth=0):
+    """source ('param', i) | ('const', text) of c if the straight-line constructor `cb` returns the constant function c:
+       From<f64> for Function = Function { function: Some(Constant(c)) },  Function::zero() = the same with 0.0,
+       a Linear without terms (From<f64> for Linear), or one of these behind wrapper-only conversions; else None"""
+    if cb is None or depth > 4 or not _straight_line(cb): return None
+    ds = _whole_defs(cb, 0)
+    if len(ds) != 1: return None
+    k, bi, d = ds[0]
+    if k == 'call':
+        c = _call_at(cb, bi); g = _callee(F, c)
+        if g is not None and _is_embedding(g) and c.args:
+            e = T.expr(cb, c.args[0])
+            if e[0] == 'call' and len(e) > 4:
+                c = _call_at(cb, e[4]); g = _callee(F, c)
+            else: return None
+        sub = _constant_source(F, S, g, depth + 1)
+        if sub is None or sub[0] == 'const': return sub
+        return _src(cb, c.args[sub[1] - 1]) if sub[1] - 1 < len(c.args) else None
+    e = T.expr(cb, {'k': 'copy', 'pl': {'l': 0, 'p': []}})
+    inner = None
+    for _ in range(8):
+        if e[0] == 'agg' and len(e[2]) == 1: inner = e; e = e[2][0]; continue
+        break
+    if inner is not None and inner[1].endswith('::Constant'):
+        if e[0] == 'const': return ('const', e[1])
+        if e[0] == 'place' and not e[2] and 1 <= e[1] <= cb.argc: return ('param', e[1])
+        return None
+    sm = _linear_summary(F, S, cb, depth)
+    if sm is not None and sm[0] == []: return sm[1]
+    return None
+
+
+def _constant_operand(F, S, b, e):
+    """e (expression in body b) builds a constant function: returns ('const', value) or ('operand', op) for the f64 it is built from"""
+    for _ in range(6):
+        if e[0] != 'call' or len(e) < 5: return None
+        c = _call_at(b, e[4]); cb = _callee(F, c) if c is not None else None
+        if cb is None: return None
+        if _is_embedding(cb) and e[3] and e[3][0][0] == 'call': e = e[3][0]; continue
+        cs = _constant_source(F, S, cb)
+        if cs is None: return None
+        if cs[0] == 'const': return ('const', T.f64_const(cs[1]))
+        a = c.args[cs[1] - 1] if cs[1] - 1 < len(c.args) else None
+        if a is None: return None
+        return ('const', T.f64_const(a['v'])) if a['k'] == 'const' else ('operand', a)
+    return None
+
+
+def _linear_summary(F, S, cb, depth=0):
+    """(terms, constant) of the v1::Linear a straight-line constructor returns: terms = [(id source, coefficient source)], sources
+    in terms of the constructor's parameters / constants; None if the body is not of that kind.
+       single_term(id, c) = Linear { terms: vec![Term { id, coefficient: c }], constant: 0.0 }   -> ([(param 1, param 2)], 0.0)
+       From<u64>::from(id) = Self::single_term(id, 1.0)                                          -> ([(param 1, 1.0)], 0.0)"""
+    if cb is None or depth > 4 or not _straight_line(cb): return None
+    ds = _whole_defs(cb, 0)
+    if len(ds) != 1: return None
+    k, bi, d = ds[0]
+    if k == 'call':
+        c = _call_at(cb, bi)
+        sub = _linear_summary(F, S, _callee(F, c), depth + 1)
+        if sub is None: return None
+        def subst(x):
+            if x is None or x[0] == 'const': return x
+            return _src(cb, c.args[x[1] - 1]) if x[1] - 1 < len(c.args) else None
+        return [(subst(a), subst(w)) for a, w in sub[0]], subst(sub[1])
+    rv = d['rv']
+    if rv['k'] == 'use': return None
+    if rv['k'] != 'agg' or not rv['adt'].endswith('v1::Linear') or len(rv['ops']) != 2: return None
+    fields = rv.get('fields') or ['terms', 'constant']
+    ti = fields.index('terms') if 'terms' in fields else 0
+    terms_op, const_op = rv['ops'][ti], rv['ops'][1 - ti]
+    taggs = [(b2, st) for b2, st in cb.stmts() if st['rv']['k'] == 'agg' and st['rv']['adt'].endswith('linear::Term') and len(st['rv']['ops']) == 2]
+    terms = []
+    if taggs:
+        if len(taggs) != 1 or taggs[0][1]['dst']['p']: return None
+        st = taggs[0][1]
+        if terms_op['k'] not in ('copy', 'move') or st['dst']['l'] not in S.slice_operand(cb, terms_op).locals: return None
+        tf = st['rv'].get('fields') or ['id', 'coefficient']
+        ii = tf.index('id') if 'id' in tf else 0
+        terms = [(_src(cb, st['rv']['ops'][ii]), _src(cb, st['rv']['ops'][1 - ii]))]
+    return terms, _src(cb, const_op)
+
+
+
 def function_rules(ctx):
     R = 'C04.function'
     b0 = ctx.method(R + '/anchor', 'v1::Function', 'substitute')
@@ -648,7 +765,7 @@ def function_rules(ctx):
         return r is not None and bool(r.loops) and r.loops[-1][0] is lo[0]
     best = None
     for i in inner:
-        res = _id_loop_checks(b, o, i, from_loop_item)
+        res = _id_loop_checks(F, S, b, o, i, from_loop_item)
         sc = sum(1 for x in res.values() if x is True)
         if best is None or sc > best[0]: best = (sc, i, res)
     _, i, res = best
@@ -669,7 +786,7 @@ def function_rules(ctx):
             if s_ is None or p_ is None or s_ == p_ or p_ != v: continue
             inside = _leaf_defs(b, s_, lambda x: x in o[4]); outside = _leaf_defs(b, s_, lambda x: x not in o[4])
             upd = bool(inside) and all(e[0] == 'call' and e[4:5] == (c.bb,) for e in inside)
-            zero = bool(outside) and all(_is_zero_function(e) for e in outside)
+            zero = bool(outside) and all(_is_zero_function(e) or _constant_operand(F, S, b, e) == ('const', 0.0) for e in outside)
             every = T.must_pass(b, o[2], {o[1]}, {c.bb})
             rets = [st for e, k, st in b.ret_assignments() if k == 'ok' and e not in bypass]
             ret = bool(rets) and all(_acc_root(b, st['rv']['ops'][0]) == s_ for st in rets)
@@ -683,7 +800,7 @@ def function_rules(ctx):
     ctx.check(good['ret'], R + '/sum/returned', 'T-CARRY', b.name, 'the accumulated sum is not what is returned', b.site(good['c'].bb))
 
 
-def _id_loop_checks(b, o, i, from_loop_item):
+def _id_loop_checks(F, S, b, o, i, from_loop_item):
     """rules about one candidate loop `i` over the ids of the term of loop `o`"""
     res = dict(probe=False, key=False, every=False, replaced=False, kept=False, acc=False, init=False, v=None)
     muls = [c for c in b.calls if c.bb in i[4] and c.item == 'mul' and (c.trait or '').endswith('ops::Mul') and 'for v1::Function' in c.name]
@@ -717,25 +834,52 @@ def _id_loop_checks(b, o, i, from_loop_item):
         res['key'] = True
         if T.must_pass(b, i[2], {i[1]}, {p.bb}): res['every'] = True
         for v, uses in vroots.items():
-            def arm_ok(start, other, want):
+            def arm_ok(start, other, want, raw=False):
                 via = set()
                 for m, a in uses:
                     vals = _arm_values(b, m.args[1 - a], start, other, i[1], m.bb)
-                    if vals and all(want(T.strip_wrappers(x)) for x in vals): via.add(m.bb)
+                    if vals and all(want(x if raw else T.strip_wrappers(x)) for x in vals): via.add(m.bb)
                 return bool(via) and T.must_pass(b, start, {i[1]}, via)
             def is_repl(e): return map_read(e, REPLACEMENT_READS)
             def is_xid(e):
-                if e[0] != 'call' or e[1] != 'single_term' or 'v1::Linear' not in e[2] or len(e) < 5: return False       # Linear::single_term(id, 1.0), also under Function::from / .into()
-                c = _call_at(b, e[4])
-                return c.args[1]['k'] == 'const' and T.f64_const(c.args[1]['v']) == 1.0 and from_loop_item(c.args[0], i)
-            rep = arm_ok(present, absent, is_repl); kept = arm_ok(absent, present, is_xid)
+                """e builds the variable x_id itself, id = this loop's item: a constructor whose *body* yields Linear { terms: [(id, 1.0)],
+                constant: 0.0 } (Linear::single_term(id, 1.0), Linear::from(id), id.into(), ...), possibly embedded into a richer function
+                type by wrapper-only conversions (Function::from(linear), .into()) or cloned"""
+                for _ in range(8):
+                    if e[0] == 'proj' and all(T.WRAPPER_OWNER.search(a) for a, f in e[2]): e = e[1]; continue
+                    if e[0] != 'call' or len(e) < 5: return False
+                    c = _call_at(b, e[4])
+                    if c is None: return False
+                    cb = _callee(F, c)
+                    if cb is None:
+                        if T.TRANSPARENT_NOCLONE.search(T.strip_generics_tail(e[2])) or e[1] in ('clone', 'to_owned', 'borrow'):
+                            if not e[3]: return False
+                            e = e[3][0]; continue
+                        return False
+                    if _is_embedding(cb) and e[3]: e = e[3][0]; continue
+                    sm = _linear_summary(F, S, cb)
+                    if sm is None: return False
+                    terms, const = sm
+                    def val(x):
+                        if x is None: return None
+                        if x[0] == 'const': return T.f64_const(x[1])
+                        a = c.args[x[1] - 1] if x[1] - 1 < len(c.args) else None
+                        return T.f64_const(a['v']) if a is not None and a['k'] == 'const' else None
+                    if len(terms) != 1 or val(const) != 0.0 or val(terms[0][1]) != 1.0: return False
+                    ids = terms[0][0]
+                    return ids is not None and ids[0] == 'param' and ids[1] - 1 < len(c.args) and from_loop_item(c.args[ids[1] - 1], i)
+                return False
+            rep = arm_ok(present, absent, is_repl); kept = arm_ok(absent, present, is_xid, raw=True)
             inside = _leaf_defs(b, v, lambda x: x in i[4]); outside = _leaf_defs(b, v, lambda x: x not in i[4])
             outside_in_term = all(bi in o[4] for k, bi, d in _whole_defs(b, v) if bi not in i[4])
             acc = bool(inside) and all(e[0] == 'call' and len(e) > 4 and any(m.bb == e[4] for m, a in uses) for e in inside)
             def is_coef(e):
-                if e[0] != 'call' or not re.search(FROM_F64, e[2]) or len(e) < 5: return False
-                c = _call_at(b, e[4])
-                rs = trace_operand(b.facts, b, c.args[0])
+                if e[0] != 'call' or len(e) < 5: return False
+                co = _constant_operand(F, S, b, e)                  # by the constructor's body: the constant function of an f64 ...
+                if co is not None and co[0] == 'operand': op = co[1]
+                elif re.search(FROM_F64, e[2]): op = _call_at(b, e[4]).args[0]          # ... or the conversion by name (body not available)
+                else: return False
+                rs = trace_operand(b.facts, b, op)
                 return len(rs) == 1 and rs[0].ok() and bool(rs[0].loops) and rs[0].loops[-1][0] is o[0] and [f for a, f in rs[0].fields if a == 'tuple'] == ['1']
             init = bool(outside) and outside_in_term and all(is_coef(e) for e in outside)
             sc = (rep, kept, acc, init)
@@ -1042,7 +1186,14 @@ def use_rules(ctx):
 # Instance::partial_evaluate having rewritten the functions of decision_variable_dependency with the fixed values
 # (seed C04-12: that loop removed -> after substitute, partial_evaluate, evaluate_samples a chain refers to a variable without
 # a value).  That clause of Instance::partial_evaluate is decided by the C03 rule family, re-decided here.
+# Function::substitute builds its result with `v * replacement`, `v * x_id` and `out + v`: composition holds only if these products
+# and sums are exact for every representation of the operands, also non-normalised ones (seed C04-15: `Linear + Linear` overwrote
+# repeated ids of the left operand -> a non-normalised replacement loses coefficients).  The kernels substitution goes through
+# (Function Mul/Add dispatch and delegations, the Linear/Quadratic/Polynomial merge and product kernels, their keys) are decided by
+# the C02 rule families, re-decided here (C09 and C13 rely on the same families).
 RELIES_ON = {'C01': ['C01.lookup', 'C01.fields', 'C01.every-term'],
+             'C02': ['C02.kernel', 'C02.keys', 'C02.dispatch', 'C02.deleg/v1::Function_Mul_v1::Function', 'C02.deleg/v1::Function_Mul_v1::Linear',
+                     'C02.deleg/v1::Function_Add_v1::Function'],
              'C03': ['C03.instance/cover/decision_variable_dependency', 'C03.instance/apply/decision_variable_dependency']}
 
 
